@@ -65,6 +65,14 @@ MODELS = {
             "S": -(p["N"] * s["S"] * s["E"] / (1 + s["I"])),
             "E": p["N"] * s["S"] * s["E"] / (1 + s["I"]) - (p["Q"] * s["E"] + p["O"] * t),
             "I": p["Q"] * s["E"] + p["O"] * t}),
+    # a higher-order mass-action reaction whose repeated reactant is not written next to its first occurrence
+    "massaction_order3": dict(
+        species=["A", "B", "C"],
+        reactions=lambda P: [(["A", "B", "A"], ["C"], "massaction", {"k": "k1"}), (["C"], ["A"], "massaction", {"k": "k2"}),
+                             (["B", "C", "A", "B"], ["A"], "massaction", {"k": "k3"})],
+        params=["k1", "k2", "k3"],
+        rhs=lambda s, p, t: (lambda r1, r2, r3: {"A": -2 * r1 + r2, "B": -r1 - 2 * r3, "C": r1 - r2 - r3})(
+            p["k1"] * s["A"] * s["A"] * s["B"], p["k2"] * s["C"], p["k3"] * s["A"] * s["B"] * s["B"] * s["C"])),
     # limiting-substrate laws: n-ary min / max over three arguments (sympy flattens nested calls into one n-ary node), abs
     "general_minmax": dict(
         species=["A", "B", "C"],
